@@ -15,7 +15,7 @@ RULE = ('every pair 0 <= n <= m in the stated boxes x item kind (terminal, rule,
 ASSUMPTIONS = ['arithmetic oracle: n <= k <= m', 'bounds limited to the boxes in coverage.bounds (m <= 64 quick; m <= 200 lalr / 120 earley and the axes up to 400 thorough)']
 DEADLINE = {'quick': 900, 'thorough': 3 * 3600}
 
-KINDS = ('term', 'rule', 'group', 'group-alt', 'tmpl', 'in-str', 'in-str-prefix', 'in-re-alt', 'in-group-alt')
+KINDS = ('term', 'rule', 'group', 'group-alt', 'tmpl', 'keep-filtered', 'in-str', 'in-str-prefix', 'in-re-alt', 'in-group-alt')
 
 
 def grammar_for(kind, n, m):
@@ -30,6 +30,8 @@ def grammar_for(kind, n, m):
         return 'start: (X | Z)%s\nX: "x"\nZ: "z"\n' % rep, {}
     if kind == 'tmpl':
         return 'start: rep{X}\nrep{p}: p%s\nX: "x"\n' % rep, {}
+    if kind == 'keep-filtered':     # an underscore-named terminal inside a keep-all rule: every occurrence is a child
+        return '!start: Z _X%s Z\n_X: "x"\nZ: "z"\n' % rep, {}
     if kind == 'in-str':
         return 'start: T\nT: "x"%s\n' % rep, {}
     if kind == 'in-str-prefix':
@@ -48,6 +50,8 @@ def text_for(kind, k):
         return 'y' + 'x' * k
     if kind in ('in-re-alt', 'in-group-alt', 'group-alt'):
         return ('xz' * k)[:k] if k % 2 else ('zx' * k)[:k]
+    if kind == 'keep-filtered':
+        return 'z' + 'x' * k + 'z'
     return 'x' * k
 
 
@@ -65,6 +69,8 @@ def expected_tree_ok(kind, k, t):
         return None if tuple(x[2] for x in ch) == tuple('xy' * k) else 'children'
     if kind == 'group-alt':
         return None if tuple(x[2] for x in ch) == tuple(text_for(kind, k)) else 'children'
+    if kind == 'keep-filtered':
+        return None if ch == (('tok', 'Z', 'z'),) + tuple(('tok', '_X', 'x') for _ in range(k)) + (('tok', 'Z', 'z'),) else 'children'
     if kind == 'tmpl':
         return None if ch == (('tree', 'rep', tuple(('tok', 'X', 'x') for _ in range(k))),) else 'children'
     want = text_for(kind, k)
@@ -165,7 +171,8 @@ def _flat(c):
 def check_ops(parser, res):
     for op, lo, hi in (('?', 0, 1), ('*', 0, 99), ('+', 1, 99)):
         for kind, g, label in (('term', 'start: X%s\nX: "x"\n', None), ('rule', 'start: a%s\na: "x"\n', None),
-                               ('group', 'start: ("x" "y")%s\n', None), ('in-term', 'start: T\nT: "y" "x"%s\n', None)):
+                               ('group', 'start: ("x" "y")%s\n', None), ('in-term', 'start: T\nT: "y" "x"%s\n', None),
+                               ('keep-filtered', '!start: Z _X%s Z\n_X: "x"\nZ: "z"\n', None)):
             gtext = g % op
             opts = {'keep_all_tokens': True} if kind == 'group' else {}
             r = larkio.build(gtext, parser=parser, **opts)
@@ -175,7 +182,7 @@ def check_ops(parser, res):
                                     'expected': 'constructed', 'observed': repr(r[1])[:200]})
                 continue
             for k in range(0, 7):
-                w = {'group': 'xy' * k, 'in-term': 'y' + 'x' * k}.get(kind, 'x' * k)
+                w = {'group': 'xy' * k, 'in-term': 'y' + 'x' * k, 'keep-filtered': 'z' + 'x' * k + 'z'}.get(kind, 'x' * k)
                 pr = larkio.parse(r[1], w)
                 res['evals'] += 1
                 res['nontrivial'] += 1
@@ -187,7 +194,7 @@ def check_ops(parser, res):
                 elif want:
                     c = obs.canon(pr[1])
                     n_ch = len(c[2])
-                    exp = {'term': k, 'rule': k, 'group': 2 * k, 'in-term': 1}[kind]
+                    exp = {'term': k, 'rule': k, 'group': 2 * k, 'in-term': 1, 'keep-filtered': k + 2}[kind]
                     if '__' in repr(c) or n_ch != exp:
                         res['viol'].append({'kind': 'tree-children', 'cause': 'children', 'case': case, 'expected': '%d children' % exp, 'observed': repr(c)[:200]})
 
